@@ -208,6 +208,7 @@ def retree_cells(tree, cellmap_after):
 # ----------------------------------------------------------------------------------------------
 class C08(PropertyCheck):
     pid = "C08"
+    claimed = True
     props_modules = ["KDVerif.Props.C08"]
     extra_build = ["KDVerif.Driver.SeedFlow"]
     driver_main = "mains/SeedFlow.lean"
@@ -474,6 +475,7 @@ def simulate_worker(build_or_obj, ws, rank):
 
 class C09(PropertyCheck):
     pid = "C09"
+    claimed = True
     props_modules = ["KDVerif.Props.C09"]
     extra_build = ["KDVerif.Driver.SeedFlow"]
     driver_main = "mains/SeedFlow.lean"
